@@ -51,9 +51,37 @@ def _ite_num(c, a, b):
 
 def _fold(args, kw, pick_first_if, native):
     if len(args) == 1:
+        from_set = isinstance(args[0], SymSet)
         args = tuple(args[0])
         if not args and "default" in kw:
             return kw["default"]
+        if from_set and "key" in kw and len(args) > 1:
+            # min/max over a *set* with a key: among members that tie on the key Python returns the first in the set's
+            # (hash) iteration order, which this model does not know -- every tied member is explored (fork)
+            keys = [kw["key"](a) for a in args]
+            if all(isinstance(k, (int, float)) for k in keys):
+                best = native(keys)
+                tied = [a for a, k in zip(args, keys) if k == best]
+                if len(tied) > 1:
+                    from . import core as _core
+
+                    E = _core._eng()
+
+                    def tok(v):
+                        if isinstance(v, (tuple, list)):
+                            return "(" + ",".join(tok(x) for x in v) + ")"
+                        return _z(v).sexpr() if isinstance(v, (SymInt, SymBool)) else repr(v)
+
+                    # one decision per distinct set of tied members on a path (the same question asked again -- every
+                    # optimizer pass asks it -- gets the same answer, as it does in a real run)
+                    import hashlib as _h
+
+                    name = "set_order:" + _h.sha1("|".join(sorted(tok(t) for t in tied)).encode()).hexdigest()[:12]
+                    pick = E.int(name, 0, len(tied) - 1)
+                    E.tag("set_order_choice", True)
+                    order = sorted(range(len(tied)), key=lambda i: tok(tied[i]))
+                    return tied[order[int(pick)]]
+                return tied[0]
     if "key" in kw or not any(isinstance(a, (SymInt, SymReal)) for a in args) or not all(
         isinstance(a, (SymInt, SymReal, int, float)) or isinstance(a, (np.integer, np.floating)) for a in args
     ):
